@@ -10,6 +10,7 @@ CONSTANTS
   BulkVersionsUsesEpoch = FALSE
   FillPolicy = "if_same_generation"
   FlushIgnoresCleanFlag = TRUE
+  FlushBumpsGeneration = TRUE
 INIT TInit
 NEXT TNext
 CONSTRAINT Track
